@@ -128,3 +128,21 @@ pub open spec fn xx_facts(sd: bool, wd: int, xx: int) -> bool {
     &&& (sd && xx >= 0 && xx < p2(wd) && wrap(true, wd, xx) < 0 ==> xx > max_of(sd, wd))
     &&& (!sd && xx < 0 ==> xx < min_of(sd, wd))
 }
+// range facts used by the float comparisons: a w-bit pattern b against the float's grid value xx
+pub proof fn lemma_fl_facts(s: bool, w: int, b: int, xx: int)
+    requires 8 <= w <= 128
+    ensures p2(w) == 2 * p2(w - 1), p2(w - 1) > 0, p2(w) <= p2(128), p2(w - 1) <= p2(127),
+            (0 <= xx < p2(128) ==> xx % p2(128) == xx),
+            (-p2(127) <= xx < p2(127) ==> wrap(true, 128, xx) == xx),
+            (fits(s, w, xx) ==> wrap(s, w, xx) == xx),
+            (s && p2(w - 1) <= xx < p2(w) ==> wrap(true, w, xx) < 0),
+            (!s ==> wrap(false, w, xx) >= 0),
+            (fits(s, w, b) ==> b < p2(w) && b >= -p2(w - 1) && (s ==> b < p2(w - 1)) && (!s ==> b >= 0))
+{
+    lemma_p2_pos(w); lemma_p2_pos(w - 1); lemma_p2_step(w); lemma_p2_mono(w, 128); lemma_p2_mono(w - 1, 127);
+    if fits(s, w, xx) { lemma_wrap_id(s, w, xx); }
+    if s && p2(w - 1) <= xx < p2(w) { lemma_wrap_unique(true, w, xx, xx - p2(w), -1); }
+    if !s { let k = lemma_wrap_diff(false, w, xx); }
+    if 0 <= xx < p2(128) { lemma_small_mod(xx as nat, p2(128) as nat); }
+    if -p2(127) <= xx < p2(127) { lemma_wrap_id(true, 128, xx); }
+}
